@@ -14,7 +14,9 @@ RULE = ("non-trivial = scalar argument aimed at a branch (within a few ulp of |x
         "Dawson sampling index n0, of a rounding tie, p within 1e-6 of +-1, relative difference within a few ulp of the tolerance, "
         "zero arguments, both arguments among the first subnormals / smallest normal / largest doubles) or a guard (digits > 7, |p| >= 1, component outside 0..2), or a harmonic (l,m) with |m| >= l-1, or a "
         "direction on a pole / the equator / an axis, or a history in one process (scalar-harmonic requests with orders beyond the degree, repeats and mirrors over 1..3 directions; "
-        "Dawson_Integral / Erfi requests across the static table), or a request aimed as above re-run under a directed rounding mode set by the caller; distinct by case text")
+        "Dawson_Integral / Erfi requests across the static table; Round requests - scalar, Vector, Matrix - with changing digits and NaN / infinite / zero / subnormal arguments in between; "
+        "vector-harmonic Y / Psi and scalar requests with NaN / infinite / huge angles in between and orders m = +-l, +-(l-1), l = 0), or p (Inv_Erf) / x (Dawson_Integral, Erfi) on a ladder of relative "
+        "distances 1e-2 .. 1e-16 and 1 .. 1000 ulp on both sides of a round value (0.5, 0.9, 0.99, ..., 1 - 10^-k, 10^-k; multiples of 0.4), or a request aimed as above re-run under a directed rounding mode set by the caller; distinct by case text")
 LEVEL_TEXT = ("Theorems (Coq): over the abstract order (no arithmetic law, valid for doubles) the translated Sign, Sign(x,y), StepFunction meet "
               "their case specifications; over R Floats_Equal is symmetric and reflexive (Relative_Difference(a,a) = 0, also at 0), Relative_Difference is symmetric, lies in [0,2] and "
               "vanishes exactly for equal arguments (C17_relative_difference_spec); Round meets "
@@ -22,6 +24,9 @@ LEVEL_TEXT = ("Theorems (Coq): over the abstract order (no arithmetic law, valid
               "idempotent; monotone; 0 -> 0; digits > 7 exits); the Vector and Matrix overloads of Round (any length / shape, induction over the containers): they return l' exactly when every entry is "
               "the scalar Round of the corresponding entry (C17_round_containers_iff, any number type), never exit for digits <= 7 and exit for digits > 7 exactly when there is an entry "
               "(C17_round_containers_exit), and are odd, idempotent, within half a unit entry by entry and monotone entry by entry (C17_round_containers_odd/_idempotent/_half_unit, C17_round_vector_monotone). "
+              "A history of Round requests in one process (scalar, Vector and Matrix requests as tables, any number type, so NaN / infinite / zero entries and any digits included): every answer is the pure "
+              "function's answer to that request alone, whatever was requested before or after, and a history with digits <= 7 throughout never exits (C17_round_history_independent, C17_round_history_total; "
+              "the history model is run against the library on generated histories with special values in between, bit-identical). "
               "Dawson_Integral's model is odd on both branches; on the WHOLE small-argument branch |x| < 0.2 its truncated series is within (16/945)|x|^9 <= 8.7e-9 < 2e-7 of Dawson's integral "
               "(C17_dawson_series_accuracy: all real x of the branch, from P' + 2xP = 1 - (16/105)x^8); on the same branch Erfi is within 1e-6 relatively of erfi for every real x (C17_erfi_series_accuracy); "
               "the static table c[NMAX] modelled as explicit state: after ANY history of Dawson_Integral / Erfi calls "
@@ -36,7 +41,8 @@ LEVEL_TEXT = ("Theorems (Coq): over the abstract order (no arithmetic law, valid
               "Erfi's 1e-6 accuracy for all x, and Inv_Erf's 1e-4 on the doubles themselves (kernel-certified at sampled points by Coq-Interval against the integral "
               "definitions: |D - int_0^x exp(t^2-x^2)| <= 2e-7, |Erfi - erfi| <= 1e-6 |erfi|, erf(y-1e-4) < p < erf(y+1e-4): S3; and tested against an "
               "independent 50-digit reference, S4), conjugation symmetry of boost's Y_lm and that boost's Y_lm satisfies the recurrences (tested, S4; Spherical_Harmonics is a pass-through to boost: "
-              "histories of requests in one process, orders beyond the degree included, are tested against an independent recurrence for Y_lm, S4 only, no model), "
+              "histories of requests in one process, orders beyond the degree included, are tested against an independent recurrence for Y_lm, S4 only, no model; the same for histories of Vector_Spherical_Harmonics_Y / _Psi requests with NaN / infinite / huge angles "
+              "in between: each answer at a proper direction is judged against rhat Y_lm, tangentiality and the classical gradient coefficients times an independent Y_lm, S4 only), "
               "floating-point behaviour of Round (tested in every decade and every binade of the 600 decades, d = 1..7), and everything under a directed rounding mode set by the caller "
               "(fesetround upward / downward / toward zero: the model's float instance rounds to nearest, so those runs are judged by the predicates only, with every rounding bound doubled and the "
               "exact symmetries x -> -x relaxed to that bound, which is what the unchanged library satisfies).")
@@ -277,7 +283,167 @@ def generate(rng, tier):
             x = rng.choice(pool) * rng.choice([1, 1, -1])
             reqs.append((rng.randint(0, 1), x))
         cs.append(Case(f"spechist {n} " + " ".join(f"{k} {hx(x)}" for k, x in reqs), ("spechist", "nt")))
+    cs += round_histories(rng, big)
+    cs += vsh_histories(rng, big)
+    cs += branch_ladders(rng, big)
     cs += rounding_modes(rng, big, cs)
+    return cs
+
+
+NONREAL = [math.nan, math.inf, -math.inf]
+# arguments outside the property's quantifier for Round (not real, or outside the 600 decades) and the two zeros: their own answers are not judged
+# (zeros are), the answers to the requests after them are
+ROUND_SPECIAL = NONREAL + [0.0, -0.0, 5e-324, -5e-324, 1e-310, 2.2250738585072014e-308, 1.7976931348623157e308, -1.7976931348623157e308]
+
+
+def round_judged(x):
+    return x == 0 or (math.isfinite(x) and 1e-300 <= abs(x) <= 1e300)
+
+
+def round_histories(rng, big):
+    """roundhist: histories of Round requests in ONE process - scalar, Vector and Matrix requests interleaved, digits changing and repeating
+    (larger-then-smaller, the same again), arguments repeated, and requests whose arguments are NaN / +-inf / +-0 / subnormal / the largest doubles
+    (as the scalar argument or as an entry of a container) in between; every answer with a real argument in the 600 decades is judged"""
+    cs = []
+    def real():
+        r = rng.random()
+        if r < 0.3: return rng.choice([math.pi, -math.e * 100, 1234.56789, 0.000123456789, 98765.4321, -0.999999, 5.55555555, 1.0, 1e10 / 3])
+        if r < 0.6: return rand_decades(rng, -30, 30)
+        if r < 0.8: return rand_decades(rng)
+        return round_edge(rng)
+    def payload(kind, el):
+        if kind == 0: return hx(el())
+        if kind == 1: return flist([el() for _ in range(rng.randint(0, 5))])
+        rows, cols = rng.randint(1, 3), rng.randint(1, 3)
+        return f"{rows} " + " ".join(flist([el() for _ in range(cols)]) for _ in range(rows))
+    def case(reqs, *tags):
+        cs.append(Case(f"roundhist {len(reqs)} " + " ".join(f"{k} {d} {p}" for k, d, p in reqs), ("roundhist", "nt") + tags))
+    # 1. systematic: (real request, digits d1) (request with a special value, digits d2) (real requests, digits d2, d1), for every special value,
+    #    the special value as the scalar argument, as the first / a middle / the last entry of a Vector, as an entry of a Matrix
+    for s in ROUND_SPECIAL:
+        for shape in range(5):
+            for _ in range(4 if big else 1):
+                d1 = rng.randint(1, 7); d2 = rng.choice([d for d in range(1, 8) if d != d1] + [d1])
+                if shape == 0: sp = (0, d2, hx(s))
+                elif shape == 1: sp = (1, d2, flist([s] + [real() for _ in range(rng.randint(0, 3))]))
+                elif shape == 2: sp = (1, d2, flist([real(), s, real()]))
+                elif shape == 3: sp = (1, d2, flist([real() for _ in range(rng.randint(1, 3))] + [s]))
+                else: sp = (2, d2, "2 " + flist([real(), s]) + " " + flist([real(), real()]))
+                k1, k2, k3 = (rng.randint(0, 2) for _ in range(3))
+                case([(k1, d1, payload(k1, real)), sp, (k2, d2, payload(k2, real)), (k3, d1, payload(k3, real)), (0, d2, hx(real()))], "special-then-real")
+    # 2. random histories over a small pool of digits and arguments (repeats are frequent), a quarter of the entries special
+    for _ in range(3000 if big else 250):
+        dpool = [rng.randint(1, 7) for _ in range(rng.randint(1, 3))]
+        apool = [real() for _ in range(4)]
+        pspec = rng.choice([0.0, 0.1, 0.3])
+        el = lambda: rng.choice(ROUND_SPECIAL) if rng.random() < pspec else rng.choice(apool) * rng.choice([1, 1, -1]) if rng.random() < 0.6 else real()
+        reqs = []
+        for _ in range(rng.randint(2, 10)):
+            k = rng.choice([0, 0, 0, 1, 1, 2]); reqs.append((k, rng.choice(dpool), payload(k, el)))
+        case(reqs, "random")
+    # 3. a guard after a history: digits > 7 ends the process whatever came before
+    for _ in range(20 if big else 4):
+        d = rng.randint(1, 7)
+        case([(0, d, hx(real())), (1, d, flist([real(), rng.choice(ROUND_SPECIAL)])), (0, rng.choice([8, 9, 100]), hx(real()))], "guard")
+    return cs
+
+
+ANGLE_SPECIAL = [math.nan, math.inf, -math.inf, 1e300, -1e300, 1.7976931348623157e308]
+
+
+def dir_judged(th, ph):
+    return math.isfinite(th) and math.isfinite(ph) and 0.0 <= th <= 3.1415926535897936 and abs(ph) <= 7.0
+
+
+def vsh_histories(rng, big):
+    """vshhist: histories of vector-harmonic (Y, Psi) and scalar-harmonic requests in ONE process over 1..4 directions, some of which are not
+    directions at all (a NaN / infinite / astronomically large angle: those answers are not judged) or lie exactly on a pole / carry a -0.0 or
+    subnormal angle (judged); orders m = +-l, +-(l-1), 0, interior; l = 0; repeats, mirrored orders, degree neighbours; every answer at a
+    proper direction is judged against an independent Y_lm"""
+    cs = []
+    def lm(edge=None):
+        l = rng.randint(0, 12) if rng.random() < 0.8 else rng.choice([0, 1, 2, 12])
+        r = rng.random() if edge is None else (0.0 if edge else 0.9)
+        if r < 0.25: m = rng.choice([-l, l])
+        elif r < 0.5: m = rng.choice([-1, 1]) * max(l - 1, 0)
+        elif r < 0.6: m = 0
+        else: m = rng.randint(-max(l - 2, 0), max(l - 2, 0))
+        return l, m
+    def case(dirs, reqs, *tags):
+        cs.append(Case(f"vshhist {len(dirs)} " + " ".join(f"{hx(t)} {hx(p)}" for t, p in dirs) + f" {len(reqs)} " + " ".join(f"{k} {l} {m} {d}" for k, l, m, d in reqs),
+                       ("vshhist", "nt") + tags))
+    def good():
+        t, p, _ = rng.choice(directions(rng, 6))
+        if rng.random() < 0.15:
+            t = rng.choice([0.0, -0.0, 5e-324, 1e-310, 1e-160, t]); p = rng.choice([0.0, -0.0, 5e-324, -5e-324, p])
+        return (t, p)
+    def bad():
+        r = rng.random(); s = rng.choice(ANGLE_SPECIAL)
+        g = good()
+        return (s, g[1]) if r < 0.45 else (g[0], s) if r < 0.8 else (s, rng.choice(ANGLE_SPECIAL))
+    # 1. systematic: for each kind of request, a request at a non-direction followed by requests at a proper direction
+    for s_th in (True, False):
+        for s in ANGLE_SPECIAL:
+            for kind in (0, 1, 2):
+                for _ in range(6 if big else 2):
+                    g = good(); b = (s, g[1]) if s_th else (g[0], s)
+                    l0, m0 = lm(); l1, m1 = lm(edge=False)
+                    reqs = [(rng.choice([0, 1, 2]), l0, m0, 0), (kind, l1, m1, 1)]
+                    for _ in range(rng.randint(2, 5)):
+                        l, m = lm(edge=rng.random() < 0.7); reqs.append((rng.choice([kind, kind, 0, 1, 2]), l, m, 0))
+                    case([g, b], reqs, "special-then-proper")
+    # 2. random histories
+    for _ in range(1500 if big else 120):
+        nd = rng.randint(1, 4); pbad = rng.choice([0.0, 0.25, 0.5])
+        dirs = [bad() if (rng.random() < pbad and i > 0) else good() for i in range(nd)]
+        reqs = []
+        for _ in range(rng.randint(2, 14)):
+            r = rng.random()
+            if reqs and r < 0.15: k, l, m, d = rng.choice(reqs); m = -m
+            elif reqs and r < 0.3: k, l, m, d = rng.choice(reqs); d = rng.randrange(nd)
+            elif reqs and r < 0.4:
+                k, l0, m0, d = rng.choice(reqs); l = min(12, max(0, l0 + rng.choice([-1, 1]))); m = max(-l, min(l, m0 + rng.choice([-1, 0, 1])))
+            else:
+                l, m = lm(); k = rng.choice([0, 0, 1, 2]); d = rng.randrange(nd)
+            reqs.append((rng.choice([k, 0, 1, 2]) if rng.random() < 0.3 else k, l, m, d))
+        case(dirs, reqs, "random")
+    return cs
+
+
+BRANCH_POINTS_P = [0.5, 0.25, 0.75, 0.1, 0.2, 0.3, 0.4, 0.6, 0.7, 0.8, 0.9, 0.95, 0.975, 0.99, 0.995, 0.999, 0.9995, 0.9999, 0.99999, 0.999999,
+                   1 - 1e-7, 1 - 1e-8, 1 - 1e-9, 1 - 1e-10, 1 - 1e-11, 1 - 1e-12, 0.01, 0.001, 1e-4, 1e-5, 1e-6, 1e-8, 1e-10, 1e-16, 0.0625, 0.125, 0.875, 0.9375,
+                   0.8427007929497149, 0.9953222650189527, 0.5204998778130465]       # (erf(1), erf(2), erf(1/2): round values of the answer)
+BRANCH_POINTS_X = [0.1, 0.2, 0.25, 0.3, 0.4, 0.5, 0.8, 1.0, 1.2, 1.5, 2.0, 2.5, 3.0, 4.0, 5.0, 6.0, 8.0, 10.0, 12.0, 15.0, 20.0, 25.0, 26.0, 30.0, 0.01, 0.001, 1e-4, 1e-8]
+
+
+def ladder_points(rng, c, n, lo=1.5, hi=16.0):
+    """n points on either side of c on a geometric ladder of relative distances 10^-lo .. 10^-hi, a few at +-1 .. +-1000 ulp, and c itself"""
+    out = [c]
+    for j in range(n):
+        u = lo + (hi - lo) * (j + rng.random()) / n
+        out.append(c * (1.0 + rng.choice([1, 1, -1]) * 10.0 ** -u))
+    for k in (1, 2, rng.randint(3, 10), rng.randint(11, 100), rng.randint(101, 1000)):
+        out.append(ulps(c, k * rng.choice([1, -1])))
+    return out
+
+
+def branch_ladders(rng, big):
+    """arguments in narrow windows next to round values where an implementation may switch branch: Inv_Erf with p around 0.5, 0.9, 0.99, 0.999, ...,
+    1 - 10^-k, 10^-k; Dawson_Integral / Erfi with x around 0.2, the multiples of H = 0.4 and round arguments - a ladder of relative distances
+    1e-2 .. 1e-16 on both sides, both signs"""
+    cs = []
+    for c in BRANCH_POINTS_P:
+        for p in ladder_points(rng, c, 24 if big else 8):
+            if not abs(p) < 1: continue
+            p *= rng.choice([1, -1])
+            cs.append(Case(f"inverf {hx(p)}", ("inverf", "nt", "branch-ladder")))
+            if big: cs.append(Case(f"inverf {hx(-p)}", ("inverf", "nt", "branch-ladder")))
+    pts = BRANCH_POINTS_X + [0.4 * k for k in range(2, 40, (1 if big else 5))]
+    for c in pts:
+        for x in ladder_points(rng, c, 12 if big else 3):
+            if abs(x) > 30: continue
+            x *= rng.choice([1, -1])
+            cs.append(Case(f"dawson {hx(x)}", ("dawson", "nt", "branch-ladder"))); cs.append(Case(f"erfi {hx(x)}", ("erfi", "nt", "branch-ladder")))
     return cs
 
 
@@ -344,7 +510,7 @@ def rounding_modes(rng, big, cs):
     by_op = {}
     for c in cs: by_op.setdefault(c.line.split()[0], []).append(c)
     quota = {"round": 400, "roundv": 40, "roundm": 40, "dawson": 150, "erfi": 150, "inverf": 60, "reldiff": 100, "feq": 100, "sign": 20, "sign2": 40, "step": 20,
-             "ycomp": 60, "psicomp": 60, "vsh": 120, "yhist": 12, "spechist": 30}
+             "ycomp": 60, "psicomp": 60, "vsh": 120, "yhist": 12, "spechist": 30, "roundhist": 40, "vshhist": 12}
     for op, n in quota.items():
         pool = by_op.get(op, [])
         if not pool: continue
@@ -371,7 +537,7 @@ def split_fe(line):
 def compare(c, io, mo, tol):
     mode, t = split_fe(c.line)
     if mode != 0: return True, False, ""       # the model's float instance runs in round-to-nearest: directed-mode answers are judged by the predicates only
-    if t[0] == "yhist": return True, False, ""  # boost's scalar harmonics are a function argument of the model: histories are judged by the predicates only
+    if t[0] in ("yhist", "vshhist"): return True, False, ""  # boost's scalar harmonics are a function argument of the model: histories are judged by the predicates only
     if t[0] == "vsh":
         return compare_lines(io.split("|")[0].strip(), mo, tol)    # the model side of `vsh` is the coefficient tables
     return compare_lines(io, mo, tol)
@@ -585,6 +751,114 @@ def _predicates(t, io, mode):
     elif op == "yhist":
         if ex: return [("yhist:exit", "terminated the process")]
         out += yhist_predicates(t, io)
+    elif op == "vshhist":
+        if ex: return [("vshhist:exit", "terminated the process")]
+        out += vshhist_predicates(t, io)
+    elif op == "roundhist":
+        out += roundhist_predicates(t, io, ex, v, K)
+    return out
+
+
+def roundhist_predicates(t, io, ex, v, K):
+    """every request of the history whose argument is real and inside the 600 decades (or zero): within half a unit of the d-th digit, a multiple
+    of the unit, zero -> zero, the same answer as the same request got earlier in this process; shapes kept; the answers to NaN / infinite /
+    subnormal arguments themselves are not judged"""
+    out = []
+    n = int(t[1]); q = 2; reqs = []
+    for _ in range(n):
+        kind, d = int(t[q]), int(t[q + 1]); q += 2
+        fl = lambda w: float(w) if w in ("nan", "inf", "-inf") else float.fromhex(w)
+        if kind == 0: rows = [[fl(t[q])]]; q += 1
+        else:
+            nr = 1
+            if kind == 2: nr = int(t[q]); q += 1
+            rows = []
+            for _r in range(nr):
+                ln = int(t[q]); q += 1
+                rows.append([fl(w) for w in t[q:q + ln]]); q += ln
+        reqs.append((kind, d, rows))
+    guard = any(d > 7 and any(len(r) for r in rows) for _k, d, rows in reqs)
+    if guard:
+        if not ex: out.append(("roundhist:digits-guard", "a request with digits > 7 did not terminate the process"))
+        return out
+    if ex: return [("roundhist:exit", "a history of Round requests with digits <= 7 terminated the process")]
+    getcontext().prec = 60
+    pos = 0; seen = {}
+    def bad_shape(): out.append(("roundhist:shape", f"the answers do not have the shapes of the requests: {io[:200]}"))
+    for j, (kind, d, rows) in enumerate(reqs):
+        where = f"request {j + 1} of {n} in this process ({('Round(double)', 'Round(Vector)', 'Round(Matrix)')[kind]}, digits = {d})"
+        try:
+            if kind == 2:
+                if v[pos] != len(rows) or not isinstance(v[pos], int): bad_shape(); return out
+                pos += 1
+            res = []
+            for r in rows:
+                if kind != 0:
+                    if not isinstance(v[pos], int) or v[pos] != len(r): bad_shape(); return out
+                    pos += 1
+                for x in r:
+                    if not isinstance(v[pos], float): bad_shape(); return out
+                    res.append((x, v[pos])); pos += 1
+        except IndexError:
+            bad_shape(); return out
+        for x, r in res:
+            if not round_judged(x) or d < 1: continue
+            if x == 0:
+                if r != 0: out.append(("roundhist:zero", f"Round(0,{d}) = {r!r} at {where}")); return out
+                continue
+            if not math.isfinite(r): out.append(("roundhist:half-unit", f"Round({x!r},{d}) = {r!r} at {where}")); return out
+            X = Decimal(x); k = X.adjusted(); u = Decimal(10) ** (k - d + 1); R = Decimal(r)
+            if abs(R - X) > u / 2 + Decimal(K * 8 * EPS) * abs(X):
+                out.append(("roundhist:half-unit", f"Round({x!r},{d}) = {r!r} is further than half a unit ({u/2}) of the digit from x, at {where}")); return out
+            nn = R / u
+            if abs(nn - nn.to_integral_value()) > Decimal(K * 16 * EPS) * abs(nn):
+                out.append(("roundhist:multiple", f"Round({x!r},{d}) = {r!r} is not a multiple of {u}, at {where}")); return out
+            if (x, d) in seen and seen[(x, d)] != r:
+                out.append(("roundhist:repeatable", f"Round({x!r},{d}) = {r!r} at {where}, but {seen[(x, d)]!r} earlier in the same process")); return out
+            seen[(x, d)] = r
+    if pos != len(v): bad_shape()
+    return out
+
+
+def vshhist_predicates(t, io):
+    out = []
+    fl = lambda w: float(w) if w in ("nan", "inf", "-inf") else float.fromhex(w)
+    nd = int(t[1]); dirs = [(fl(t[2 + 2 * i]), fl(t[3 + 2 * i])) for i in range(nd)]
+    q = 2 + 2 * nd; k = int(t[q]); reqs = [tuple(int(w) for w in t[q + 1 + 4 * j: q + 5 + 4 * j]) for j in range(k)]
+    a = parse_vals(io); pos = 0; first = {}
+    for j, (kind, l, m, d) in enumerate(reqs):
+        nz = 1 if kind == 2 else 3
+        if pos + 2 * nz > len(a): out.append(("vshhist:shape", f"{len(a)} numbers returned for {k} requests")); return out
+        z = [complex(a[pos + 2 * i], a[pos + 2 * i + 1]) for i in range(nz)]; pos += 2 * nz
+        th, ph = dirs[d]
+        if not dir_judged(th, ph): continue
+        name = ("Vector_Spherical_Harmonics_Y", "Vector_Spherical_Harmonics_Psi", "Spherical_Harmonics")[kind]
+        where = f"request {j + 1} of {k} in this process: {name}(l={l}, m={m}, theta={th!r}, phi={ph!r})"
+        sc = math.sqrt((2 * l + 1) / (4 * math.pi))
+        n = (math.sin(th) * math.cos(ph), math.sin(th) * math.sin(ph), math.cos(th))
+        if kind == 2:
+            e = ylm_ref(l, m, th, ph)
+            if not (abs(z[0] - e) <= 1e-11 * (l + 1) * sc): out.append(("vshhist:definition", f"{z[0]!r}, Y_lm = {e!r} at {where}")); return out
+        elif kind == 0:
+            e = ylm_ref(l, m, th, ph)
+            for i in range(3):
+                if not (abs(z[i] - n[i] * e) <= 1e-11 * (l + 1) * sc):
+                    out.append(("vshhist:Y=rhat*Ylm", f"component {i} = {z[i]!r}, rhat_i * Y_lm = {n[i] * e!r} at {where}")); return out
+        else:
+            dot = sum(n[i] * z[i] for i in range(3))
+            if not (abs(dot) <= 1e-12 * (l + 1) ** 2 * sc): out.append(("vshhist:tangential", f"rhat . Psi = {dot!r} is not 0 at {where}")); return out
+            # r grad Y_lm in the basis of the neighbouring harmonics (classical coefficients, independent Y_lm)
+            for i in range(3):
+                e = 0j
+                for lh in (l - 1, l + 1):
+                    for mh in (m - 1, m, m + 1):
+                        if abs(mh) <= lh: e += table_ref(True, i, l, m, lh, mh) * ylm_ref(lh, mh, th, ph)
+                if not (abs(z[i] - e) <= 1e-11 * (l + 1) ** 2 * sc):
+                    out.append(("vshhist:Psi=r*grad(Y)", f"component {i} = {z[i]!r}, r grad Y_lm = {e!r} at {where}")); return out
+        key = (kind, l, m, th, ph)
+        if key in first and first[key][1] != z and not any(w != w for w in z):
+            out.append(("vshhist:repeatable", f"{z!r} at {where}, but request {first[key][0] + 1} with the same arguments was answered {first[key][1]!r}")); return out
+        first.setdefault(key, (j, z))
     return out
 
 
